@@ -47,12 +47,18 @@ type kvAddData struct {
 func (kgdb *KVInterfaceGDB) AddVertex(vertices []*gdbi.Vertex) error {
 	err := kgdb.kvg.kv.BulkWrite(func(tx kvi.KVBulkWrite) error {
 		var bulkErr *multierror.Error
+		inserted := 0
 		for _, vert := range vertices {
 			if err := insertVertex(tx, kgdb.kvg.idx, kgdb.graph, vert.ToVertex()); err != nil {
 				bulkErr = multierror.Append(bulkErr, err)
+			} else {
+				inserted++
 			}
 		}
-		kgdb.kvg.ts.Touch(kgdb.graph)
+		if inserted > 0 {
+			// a call whose elements were all refused changes nothing
+			kgdb.kvg.ts.Touch(kgdb.graph)
+		}
 		return bulkErr.ErrorOrNil()
 	})
 	return err
@@ -122,12 +128,18 @@ func insertEdge(tx kvi.KVBulkWrite, idx *kvindex.KVIndex, graph string, edge *gr
 func (kgdb *KVInterfaceGDB) AddEdge(edges []*gdbi.Edge) error {
 	err := kgdb.kvg.kv.BulkWrite(func(tx kvi.KVBulkWrite) error {
 		var bulkErr *multierror.Error
+		inserted := 0
 		for _, edge := range edges {
 			if err := insertEdge(tx, kgdb.kvg.idx, kgdb.graph, edge.ToEdge()); err != nil {
 				bulkErr = multierror.Append(bulkErr, err)
+			} else {
+				inserted++
 			}
 		}
-		kgdb.kvg.ts.Touch(kgdb.graph)
+		if inserted > 0 {
+			// a call whose elements were all refused changes nothing
+			kgdb.kvg.ts.Touch(kgdb.graph)
+		}
 		return bulkErr.ErrorOrNil()
 	})
 	return err
@@ -220,6 +232,11 @@ func (kgdb *KVInterfaceGDB) DelVertex(id string) error {
 		}
 		return nil
 	})
+
+	if len(delKeys) == 0 && !kgdb.kvg.kv.HasKey(vid) {
+		// nothing to delete: the graph (and its timestamp) stays as it is
+		return nil
+	}
 
 	return kgdb.kvg.kv.Update(func(tx kvi.KVTransaction) error {
 		if err := tx.Delete(vid); err != nil {
